@@ -65,6 +65,15 @@ class C03(Check):
         for mname in ("setuppy-utf8-bom", "setuppy-utf8-bom-compact", "req-utf8-bom"):
             exps.append(dict(base, kind="fixed:" + mname, include=["pixee:python/url-sandbox"],
                              world_spec={"files": [{"path": "pkg/a.py", "snippets": [sec], "layout": {}}, {"path": W.manifests()[names[mname]]["file"], "manifest": names[mname]}]}))
+        # every manifest shape of the corpus once with a dependency-adding codemod (the writers build their diffs themselves)
+        done = {e["world_spec"]["files"][-1].get("manifest") for e in exps if "manifest" in e["world_spec"]["files"][-1]}
+        for m in W.manifests():
+            if m["idx"] in done:
+                continue
+            use = (m.get("tags", {}).get("use") or ["security"])[0]
+            cid, snip = ("pixee:python/use-defusedxml", G.pick_snippet(__import__("random").Random(2), "pixee:python/use-defusedxml")["idx"]) if use == "defusedxml" else ("pixee:python/url-sandbox", sec)
+            exps.append(dict(base, kind="fixed:manifest-walk", include=[cid],
+                             world_spec={"files": [{"path": "pkg/a.py", "snippets": [snip], "layout": {}}, {"path": m["file"], "manifest": m["idx"]}]}))
         for ex in ("ff", "vt-in-str", "u2028-in-str", "nel-in-str", "ff-in-str", "cr-in-comment"):
             exps.append(dict(base, kind="fixed:exotic:" + ex, include=["pixee:python/remove-unnecessary-f-str"],
                              world_spec={"files": [{"path": "pkg/a.py", "snippets": [fstr], "layout": {"exotic": ex}}]}))
